@@ -10,13 +10,18 @@ pub mod c06;
 pub mod c07;
 pub mod c08;
 pub mod c13;
+pub mod c14;
 pub mod families;
 pub mod c16;
 
 pub fn all() -> Vec<Check> {
-    vec![c01::check(), c03::check(), c04::check(), c05::check(), c06::check(), c07::check(), c08::check(), c13::check(), c16::check()]
+    vec![c01::check(), c03::check(), c04::check(), c05::check(), c06::check(), c07::check(), c08::check(), c13::check(), c14::check(), c16::check()]
 }
 
-pub fn child_main(_args: &[String]) -> i32 {
-    2
+pub fn child_main(args: &[String]) -> i32 {
+    crate::sim::silence_panics();
+    match args.first().map(|s| s.as_str()) {
+        Some("c14f17") => c14::child_f17(),
+        _ => 2,
+    }
 }
